@@ -131,6 +131,10 @@ func CheckC11(l *Lab, verifDir string) int {
 						}
 						bc.C.Close()
 					}
+					if bc.HalfClosedByPeer() && m.GW.Alive() {
+						rep.Violate(fmt.Sprintf("C11/backend-connection-only-half-closed/%s/%s/%s", cell.Transport, cell.Ending, cell.PointName),
+							fmt.Sprintf("the tunnel ended and host %s read EOF, but the gateway still took the host's bytes 100 ms later: it shut down only its sending side and keeps the connection (and whatever serves it)", u.B.Addr()), map[string]any{"cell": cell})
+					}
 					rep.Count("backend_connections_checked", 1)
 				}
 				u.B.Reset()
